@@ -37,6 +37,8 @@ def worlds(tier):
             tasks=small(("S", "C", "a", "a2", "b", "b2", "J", "L"))),
         w.W("cond2-1cpu-EDF", w.fixed_times(w.cond2()), w.C1, "EDF", split=6, weight=10),
         w.W("cond-branches-with-their-own-sinks-EDF", w.fixed_times(w.cond_nojoin()), w.C1, "EDF", split=6, weight=10, tasks=small(("C", "a", "a2", "b", "b2"))),
+        w.W("cond2-havoc-release_taskgraphs-join-planned-ahead", w.fixed_times(w.cond2()), w.C2, "HAVOC", split=8,
+            havoc=dict(hv, release_taskgraphs=True, max_unplaced=0, first_pool_only=True), tasks=small(("C", "a", "b", "J")), weight=60),
         w.W("chain2-havoc-lookahead", w.fixed_times(w.chain(2)), w.C1, "HAVOC", split=6, havoc=dict(hv, lookahead="sym"), tasks=small(AB)),
         w.W("chain2-havoc-release_taskgraphs-retract", w.fixed_times(w.chain(2)), w.C1, "HAVOC", split=7, havoc=dict(hv, release_taskgraphs=True, retract=True), tasks=small(AB), weight=30),
     ]
